@@ -127,12 +127,12 @@ def main(argv=None) -> int:
 
     # ---------------------------------------------------------------- search tier
     tasks = []
-    nprocs = args.procs or (8 if tier == "quick" else 16)
+    nprocs = args.procs or (12 if tier == "quick" else 16)
     for ci, n in enumerate(names):
         c = claims[n]
         total = int(max(1, round((c.quick if tier == "quick" else c.thorough) * args.scale)))
         if tier == "quick":
-            shards = max(1, min(4, nprocs // max(1, len(names))))
+            shards = max(1, min(6, nprocs // max(1, len(names))))
         else:
             shards = 16
         shards = max(1, min(shards, total // 20 if total >= 40 else 1))
